@@ -27,8 +27,8 @@ SWISS = "babylon::SwissMemoryResource"
 
 
 DEPENDS = {
-    "C19": "the shared and swiss resources keep their per-thread arenas in EnumerableThreadLocal",
-    "C14": "per-thread arenas are addressed by ThreadId",
+    "C19": ("the shared and swiss resources keep their per-thread arenas in EnumerableThreadLocal", "all"),
+    "C14": ("per-thread arenas are addressed by ThreadId", "all"),
     "C04": "per-thread arenas live in a ConcurrentVector",
 }
 
